@@ -1,4 +1,5 @@
 import PnVerif.Model.Fill
+import PnVerif.Lemmas.Redef
 /-
   C16 — fill-value semantics: theorems about the model `PnVerif.Model.Fill`
   (share arithmetic, the plan of `fillerup_aggregate`, `fill_var_rec`, default fill bytes, fill-mode
@@ -7,6 +8,7 @@ import PnVerif.Model.Fill
 -/
 namespace PnVerif.Props.C16
 open PnVerif.Fill
+open PnVerif.Redef (File rd writeAt rd_writeAt)
 
 /-! ### shares -/
 
@@ -89,6 +91,9 @@ theorem shares_partition (len p : Nat) (hp : 1 ≤ p) :
     have h2 := hin.2; rw [share_consecutive] at h2
     have := hin'.1; omega
 
+/-- non-vacuity: 5 processes, 3 elements (more processes than elements): element 2 is in exactly one share -/
+example : ∃ r, r < 5 ∧ InShare 3 5 r 2 ∧ ∀ r', r' < 5 → InShare 3 5 r' 2 → r' = r :=
+  (shares_partition 3 5 (by decide)).1 2 (by decide)
 example : share 7 3 0 = (0, 3) ∧ share 7 3 1 = (3, 2) ∧ share 7 3 2 = (5, 2) := by decide
 example : share 2 5 0 = (0, 1) ∧ share 2 5 1 = (1, 1) ∧ share 2 5 2 = (2, 0) ∧ share 2 5 4 = (2, 0) := by decide
 
@@ -462,6 +467,324 @@ theorem planBuf_length (p r recsize nrecs : Nat) (elem : FVar → List UInt8) (v
     simp only [List.flatMap_cons, List.flatMap_nil, List.append_nil]
     rw [passRec_len p r recsize n elem h]
 
+/-! ### effect of the aggregated fill on the file -/
+
+/-- write `w` covers byte `b` -/
+def Covers (w : Seg × List UInt8) (b : Nat) : Prop := w.1.off ≤ b ∧ b < w.1.off + w.2.length
+
+theorem writeSegs_agree (x : UInt8) (b : Nat) :
+    ∀ (ws : List (Seg × List UInt8)) (f : File),
+      (∀ w ∈ ws, Covers w b → w.2.getD (b - w.1.off) 0 = x) →
+      (rd f b = x ∨ ∃ w ∈ ws, Covers w b) → rd (writeSegs f ws) b = x := by
+  intro ws
+  induction ws with
+  | nil =>
+    intro f _ h
+    rcases h with h | ⟨w, hw, _⟩
+    · exact h
+    · cases hw
+  | cons w ws ih =>
+    intro f hval h
+    show rd (writeSegs (writeAt f w.1.off w.2) ws) b = x
+    apply ih _ (fun w' hw' => hval w' (List.mem_cons_of_mem _ hw'))
+    have hw := hval w (List.mem_cons_self)
+    rw [rd_writeAt]
+    by_cases hc : w.1.off ≤ b ∧ b < w.1.off + w.2.length
+    · left; rw [if_pos hc]; exact hw hc
+    · rw [if_neg hc]
+      rcases h with h | ⟨w', hw', hc'⟩
+      · left; exact h
+      · cases hw' with
+        | head => exact absurd hc' hc
+        | tail _ hm => right; exact ⟨w', hm, hc'⟩
+
+theorem writeSegs_frame (b : Nat) :
+    ∀ (ws : List (Seg × List UInt8)) (f : File), (∀ w ∈ ws, ¬ Covers w b) → rd (writeSegs f ws) b = rd f b := by
+  intro ws
+  induction ws with
+  | nil => intro f _; rfl
+  | cons w ws ih =>
+    intro f h
+    show rd (writeSegs (writeAt f w.1.off w.2) ws) b = rd f b
+    have hn : ¬ (w.1.off ≤ b ∧ b < w.1.off + w.2.length) := h w List.mem_cons_self
+    rw [ih _ (fun w' hw' => h w' (List.mem_cons_of_mem _ hw')), rd_writeAt, if_neg hn]
+
+theorem fillBuf_getD (e : List UInt8) (n i : Nat) (hi : i < n * e.length) :
+    (fillBuf e n).getD i 0 = e.getD (i % e.length) 0 := by
+  induction n generalizing i with
+  | zero => simp at hi
+  | succ n ih =>
+    have hs : fillBuf e (n + 1) = e ++ fillBuf e n := by
+      unfold fillBuf; rw [List.replicate_succ, List.flatten_cons]
+    rw [hs]
+    simp only [List.getD_eq_getElem?_getD]
+    by_cases h : i < e.length
+    · rw [List.getElem?_append_left h, Nat.mod_eq_of_lt h]
+    · have h' : e.length ≤ i := by omega
+      rw [List.getElem?_append_right h']
+      have := ih (i - e.length) (by rw [Nat.succ_mul] at hi; omega)
+      simp only [List.getD_eq_getElem?_getD] at this
+      rw [this, ← Nat.mod_eq_sub_mod h']
+
+/-- `(v, base)` is an instance to be filled: a new fill-mode variable `v` of `vars` and the file offset
+    `base` of the variable (fixed-size) or of its part of one of the `nrecs` existing records -/
+def IsSlot (recsize nrecs : Nat) (vars : List FVar) (v : FVar) (base : Nat) : Prop :=
+  v ∈ vars ∧ v.noFill = false ∧
+    ((v.isRec = false ∧ base = v.begin) ∨ (v.isRec = true ∧ ∃ recno, recno < nrecs ∧ base = v.begin + recsize * recno))
+
+theorem mem_fillPlanD (p r recsize nrecs : Nat) (elem : FVar → List UInt8) (vars : List FVar) (w : Seg × List UInt8) :
+    w ∈ fillPlanD p r recsize nrecs elem vars ↔ ∃ v base, IsSlot recsize nrecs vars v base ∧ w = segD p r elem v base := by
+  unfold fillPlanD IsSlot
+  rw [List.mem_append]
+  constructor
+  · rintro (h | h)
+    · unfold fixedSegsD at h
+      obtain ⟨v, hv, hsv⟩ := List.mem_filterMap.mp h
+      by_cases hc : (v.noFill || v.isRec) = true
+      · simp [hc] at hsv
+      · simp only [hc, if_false, Option.some.injEq, Bool.false_eq_true] at hsv
+        have hnf : v.noFill = false := by cases h1 : v.noFill <;> simp_all
+        have hnr : v.isRec = false := by cases h1 : v.isRec <;> simp_all
+        exact ⟨v, v.begin, ⟨hv, hnf, Or.inl ⟨hnr, rfl⟩⟩, hsv.symm⟩
+    · obtain ⟨recno, hrec, hin⟩ := List.mem_flatMap.mp h
+      unfold recSegsD at hin
+      obtain ⟨v, hv, hsv⟩ := List.mem_filterMap.mp hin
+      by_cases hc : (v.noFill || !v.isRec) = true
+      · simp [hc] at hsv
+      · simp only [hc, if_false, Option.some.injEq, Bool.false_eq_true] at hsv
+        have hnf : v.noFill = false := by cases h1 : v.noFill <;> simp_all
+        have hir : v.isRec = true := by cases h1 : v.isRec <;> simp_all
+        exact ⟨v, _, ⟨hv, hnf, Or.inr ⟨hir, recno, List.mem_range.mp hrec, rfl⟩⟩, hsv.symm⟩
+  · rintro ⟨v, base, ⟨hv, hnf, hk⟩, rfl⟩
+    rcases hk with ⟨hnr, rfl⟩ | ⟨hir, recno, hrn, rfl⟩
+    · left
+      unfold fixedSegsD
+      exact List.mem_filterMap.mpr ⟨v, hv, by simp [hnf, hnr]⟩
+    · right
+      refine List.mem_flatMap.mpr ⟨recno, List.mem_range.mpr hrn, ?_⟩
+      unfold recSegsD
+      exact List.mem_filterMap.mpr ⟨v, hv, by simp [hnf, hir]⟩
+
+/-- the `D` plan is the plan of the model (`fillPlan`) paired with the buffer of the model (`planBuf`) -/
+theorem fillPlanD_fst (p r recsize nrecs : Nat) (elem : FVar → List UInt8) (vars : List FVar) :
+    (fillPlanD p r recsize nrecs elem vars).map (·.1) = fillPlan p r recsize nrecs vars := by
+  have h1 : ∀ vs : List FVar, (fixedSegsD p r elem vs).map (·.1) = fixedSegs p r vs := by
+    intro vs
+    unfold fixedSegsD fixedSegs
+    rw [List.map_filterMap]
+    congr 1
+    funext v
+    by_cases hc : (v.noFill || v.isRec) = true <;> simp [hc, segD]
+  have h2 : ∀ recno, ∀ vs : List FVar, (recSegsD p r recsize recno elem vs).map (·.1) = recSegs p r recsize recno vs := by
+    intro recno vs
+    unfold recSegsD recSegs
+    rw [List.map_filterMap]
+    congr 1
+    funext v
+    by_cases hc : (v.noFill || !v.isRec) = true <;> simp [hc, segD]
+  unfold fillPlanD fillPlan
+  rw [List.map_append, h1, List.map_flatMap]
+  simp only [h2]
+
+
+private theorem fixedSegsD_cons (p r : Nat) (elem : FVar → List UInt8) (v : FVar) (vs : List FVar) :
+    fixedSegsD p r elem (v :: vs) = if (v.noFill || v.isRec) = true then fixedSegsD p r elem vs
+      else segD p r elem v v.begin :: fixedSegsD p r elem vs := by
+  unfold fixedSegsD
+  rw [List.filterMap_cons]
+  split <;> simp_all
+
+private theorem recSegsD_cons (p r recsize recno : Nat) (elem : FVar → List UInt8) (v : FVar) (vs : List FVar) :
+    recSegsD p r recsize recno elem (v :: vs) = if (v.noFill || !v.isRec) = true then recSegsD p r recsize recno elem vs
+      else segD p r elem v (v.begin + recsize * recno) :: recSegsD p r recsize recno elem vs := by
+  unfold recSegsD
+  rw [List.filterMap_cons]
+  split <;> simp_all
+
+private theorem fixedSegsD_snd (p r : Nat) (elem : FVar → List UInt8) :
+    ∀ vars : List FVar, (fixedSegsD p r elem vars).flatMap (·.2)
+      = (passVars false vars).flatMap (fun v => fillBuf (elem v) (share v.varLen p r).2) := by
+  intro vars
+  induction vars with
+  | nil => rfl
+  | cons v vs ih =>
+    rw [passVars_cons, fixedSegsD_cons]
+    cases hn : v.noFill <;> cases hr : v.isRec
+    · simp only [Bool.not_false, Bool.and_self, beq_self_eq_true, if_true, Bool.or_self, Bool.false_eq_true, if_false]
+      rw [List.flatMap_cons, List.flatMap_cons, ih]
+      rfl
+    all_goals simpa using ih
+
+private theorem recSegsD_snd (p r recsize recno : Nat) (elem : FVar → List UInt8) :
+    ∀ vars : List FVar, (recSegsD p r recsize recno elem vars).flatMap (·.2)
+      = (passVars true vars).flatMap (fun v => fillBuf (elem v) (share v.varLen p r).2) := by
+  intro vars
+  induction vars with
+  | nil => rfl
+  | cons v vs ih =>
+    rw [passVars_cons, recSegsD_cons]
+    cases hn : v.noFill <;> cases hr : v.isRec
+    · simpa using ih
+    · simp only [Bool.not_false, Bool.and_self, beq_self_eq_true, if_true, Bool.not_true, Bool.or_self, Bool.false_eq_true, if_false]
+      rw [List.flatMap_cons, List.flatMap_cons, ih]
+      rfl
+    all_goals simpa using ih
+
+/-- … and its data, concatenated in plan order, is the write buffer of the model (`planBuf`) -/
+theorem fillPlanD_snd (p r recsize nrecs : Nat) (elem : FVar → List UInt8) (vars : List FVar) :
+    (fillPlanD p r recsize nrecs elem vars).flatMap (·.2) = planBuf p r nrecs elem vars := by
+  unfold fillPlanD planBuf
+  rw [List.flatMap_append, fixedSegsD_snd]
+  congr 1
+  induction nrecs with
+  | zero => rfl
+  | succ n ih =>
+    rw [List.range_succ, List.flatMap_append, List.flatMap_append, List.flatMap_append, ih]
+    simp only [List.flatMap_cons, List.flatMap_nil, List.append_nil]
+    rw [recSegsD_snd]
+
+theorem segD_len (p r : Nat) (elem : FVar → List UInt8) (helem : ∀ v, (elem v).length = v.xsz) (v : FVar) (base : Nat) :
+    (segD p r elem v base).2.length = (segD p r elem v base).1.len := by
+  unfold segD segOf
+  simp only []
+  rw [fillBuf_length, helem]
+
+/-- a covered byte lies inside the instance the segment belongs to and carries that variable's fill byte -/
+theorem segD_covers (p r : Nat) (hp : 1 ≤ p) (hr : r < p) (elem : FVar → List UInt8)
+    (helem : ∀ v, (elem v).length = v.xsz) (v : FVar) (base b : Nat) (hc : Covers (segD p r elem v base) b) :
+    (base ≤ b ∧ b < base + vbytes v) ∧
+    (segD p r elem v base).2.getD (b - (segD p r elem v base).1.off) 0 = (elem v).getD ((b - base) % v.xsz) 0 := by
+  have hl := segD_len p r elem helem v base
+  have hw := segOf_within p r hp hr v base
+  unfold Covers at hc
+  rw [hl] at hc
+  have hoff : (segD p r elem v base).1 = segOf p r v base := rfl
+  rw [hoff] at hc
+  refine ⟨by omega, ?_⟩
+  have hd : (segD p r elem v base).2 = fillBuf (elem v) (share v.varLen p r).2 := rfl
+  rw [hd, hoff]
+  have hso : (segOf p r v base).off = base + (share v.varLen p r).1 * v.xsz := rfl
+  have hsl : (segOf p r v base).len = (share v.varLen p r).2 * v.xsz := rfl
+  rw [fillBuf_getD _ _ _ (by rw [helem]; omega), helem]
+  congr 1
+  have : b - base = (share v.varLen p r).1 * v.xsz + (b - (segOf p r v base).off) := by omega
+  rw [this, Nat.mul_comm, Nat.mul_add_mod]
+
+theorem pairwise_trichotomy {α : Type} {R : α → α → Prop} :
+    ∀ {l : List α}, l.Pairwise R → ∀ a ∈ l, ∀ b ∈ l, a = b ∨ R a b ∨ R b a
+  | [], _, a, ha, _, _ => by cases ha
+  | x :: xs, h, a, ha, b, hb => by
+    rw [List.pairwise_cons] at h
+    cases ha with
+    | head =>
+      cases hb with
+      | head => exact Or.inl rfl
+      | tail _ hb' => exact Or.inr (Or.inl (h.1 b hb'))
+    | tail _ ha' =>
+      cases hb with
+      | head => exact Or.inr (Or.inr (h.1 a ha'))
+      | tail _ hb' => exact pairwise_trichotomy h.2 a ha' b hb'
+
+/-- two instances that share a byte are the same instance -/
+theorem slot_unique (recBase recsize nrecs : Nat) (vars : List FVar) (h : NewLayoutOK recBase recsize vars)
+    (v w : FVar) (bv bw b : Nat) (hv : IsSlot recsize nrecs vars v bv) (hw : IsSlot recsize nrecs vars w bw)
+    (hbv : bv ≤ b ∧ b < bv + vbytes v) (hbw : bw ≤ b ∧ b < bw + vbytes w) : v = w ∧ bv = bw := by
+  obtain ⟨hvm, _, hvk⟩ := hv
+  obtain ⟨hwm, _, hwk⟩ := hw
+  have tri := pairwise_trichotomy h.ordered v hvm w hwm
+  rcases hvk with ⟨hvr, rfl⟩ | ⟨hvr, rv, _, rfl⟩ <;> rcases hwk with ⟨hwr, rfl⟩ | ⟨hwr, rw_, _, rfl⟩
+  · rcases tri with e | o | o
+    · exact ⟨e, by rw [e]⟩
+    · have := o (by rw [hvr, hwr]); omega
+    · have := o (by rw [hvr, hwr]); omega
+  · have := h.fixedBelow v hvm hvr
+    have := (h.recInside w hwm hwr).1
+    omega
+  · have := h.fixedBelow w hwm hwr
+    have := (h.recInside v hvm hvr).1
+    omega
+  · have iv := h.recInside v hvm hvr
+    have iw := h.recInside w hwm hwr
+    have hrec : rv = rw_ := by
+      rcases Nat.lt_trichotomy rv rw_ with hlt | heq | hgt
+      · have : recsize * (rv + 1) ≤ recsize * rw_ := Nat.mul_le_mul_left _ hlt
+        rw [Nat.mul_succ] at this; omega
+      · exact heq
+      · have : recsize * (rw_ + 1) ≤ recsize * rv := Nat.mul_le_mul_left _ hgt
+        rw [Nat.mul_succ] at this; omega
+    subst hrec
+    rcases tri with e | o | o
+    · exact ⟨e, by rw [e]⟩
+    · have := o (by rw [hvr, hwr]); omega
+    · have := o (by rw [hvr, hwr]); omega
+
+/-- every element of every instance to be filled reads as the variable's fill element afterwards -/
+theorem fillAll_slot (p recBase recsize nrecs : Nat) (hp : 1 ≤ p) (elem : FVar → List UInt8)
+    (helem : ∀ v, (elem v).length = v.xsz) (vars : List FVar) (h : NewLayoutOK recBase recsize vars) (f : File)
+    (v : FVar) (base : Nat) (hs : IsSlot recsize nrecs vars v base) (e k : Nat) (he : e < v.varLen) (hk : k < v.xsz) :
+    rd (fillAll p recsize nrecs elem vars f) (base + e * v.xsz + k) = (elem v).getD k 0 := by
+  have hin : base ≤ base + e * v.xsz + k ∧ base + e * v.xsz + k < base + vbytes v := by
+    have : (e + 1) * v.xsz ≤ v.varLen * v.xsz := Nat.mul_le_mul_right _ he
+    rw [Nat.succ_mul] at this
+    unfold vbytes; omega
+  unfold fillAll
+  apply writeSegs_agree
+  · intro w hw hc
+    obtain ⟨r, hr, hwr⟩ := List.mem_flatMap.mp hw
+    have hr' : r < p := List.mem_range.mp hr
+    obtain ⟨v', base', hs', rfl⟩ := (mem_fillPlanD p r recsize nrecs elem vars w).mp hwr
+    obtain ⟨hin', hval⟩ := segD_covers p r hp hr' elem helem v' base' _ hc
+    obtain ⟨rfl, rfl⟩ := slot_unique recBase recsize nrecs vars h v v' base base' _ hs hs' hin hin'
+    rw [hval]
+    congr 1
+    have : base + e * v.xsz + k - base = v.xsz * e + k := by rw [Nat.mul_comm]; omega
+    rw [this, Nat.mul_add_mod, Nat.mod_eq_of_lt hk]
+  · right
+    obtain ⟨r, hr, hsh, _⟩ := (shares_partition v.varLen p hp).1 e he
+    refine ⟨segD p r elem v base, ?_, ?_⟩
+    · exact List.mem_flatMap.mpr ⟨r, List.mem_range.mpr hr, (mem_fillPlanD p r recsize nrecs elem vars _).mpr ⟨v, base, hs, rfl⟩⟩
+    · unfold Covers
+      rw [segD_len p r elem helem]
+      have hso : (segD p r elem v base).1.off = base + (share v.varLen p r).1 * v.xsz := rfl
+      have hsl : (segD p r elem v base).1.len = (share v.varLen p r).2 * v.xsz := rfl
+      have h1 : (share v.varLen p r).1 * v.xsz ≤ e * v.xsz := Nat.mul_le_mul_right _ hsh.1
+      have h2 : (e + 1) * v.xsz ≤ ((share v.varLen p r).1 + (share v.varLen p r).2) * v.xsz :=
+        Nat.mul_le_mul_right _ hsh.2
+      have h3 : (e + 1) * v.xsz = e * v.xsz + v.xsz := Nat.succ_mul e v.xsz
+      have h4 : ((share v.varLen p r).1 + (share v.varLen p r).2) * v.xsz
+          = (share v.varLen p r).1 * v.xsz + (share v.varLen p r).2 * v.xsz := Nat.add_mul _ _ _
+      omega
+
+/-- **fill_effect** (unwritten_reads_fill / old_data_untouched / nofill_untouched at byte level):
+    after the aggregated fill of all processes — for every process count, every number of existing
+    records, every list of new variables laid out as NC_begins does —
+    (1) every element of every new fixed-size variable in fill mode holds the variable's fill element,
+    (2) so does every element of every new fill-mode record variable in every EXISTING record,
+    (3) every other byte of the file (older variables, no-fill variables, the header, records that
+        do not exist yet) is unchanged. -/
+theorem fill_effect (p recBase recsize nrecs : Nat) (hp : 1 ≤ p) (elem : FVar → List UInt8)
+    (helem : ∀ v, (elem v).length = v.xsz) (vars : List FVar) (h : NewLayoutOK recBase recsize vars) (f : File) :
+    (∀ v ∈ vars, v.noFill = false → v.isRec = false → ∀ e k, e < v.varLen → k < v.xsz →
+      rd (fillAll p recsize nrecs elem vars f) (v.begin + e * v.xsz + k) = (elem v).getD k 0) ∧
+    (∀ v ∈ vars, v.noFill = false → v.isRec = true → ∀ recno e k, recno < nrecs → e < v.varLen → k < v.xsz →
+      rd (fillAll p recsize nrecs elem vars f) (v.begin + recsize * recno + e * v.xsz + k) = (elem v).getD k 0) ∧
+    (∀ b, ¬ InFillSlot recsize nrecs vars b → rd (fillAll p recsize nrecs elem vars f) b = rd f b) := by
+  refine ⟨fun v hv hnf hnr e k he hk => ?_, fun v hv hnf hir recno e k hrn he hk => ?_, fun b hb => ?_⟩
+  · exact fillAll_slot p recBase recsize nrecs hp elem helem vars h f v v.begin ⟨hv, hnf, Or.inl ⟨hnr, rfl⟩⟩ e k he hk
+  · exact fillAll_slot p recBase recsize nrecs hp elem helem vars h f v _ ⟨hv, hnf, Or.inr ⟨hir, recno, hrn, rfl⟩⟩ e k he hk
+  · unfold fillAll
+    apply writeSegs_frame
+    intro w hw hc
+    obtain ⟨r, hr, hwr⟩ := List.mem_flatMap.mp hw
+    obtain ⟨v', base', hs', rfl⟩ := (mem_fillPlanD p r recsize nrecs elem vars w).mp hwr
+    obtain ⟨hin', _⟩ := segD_covers p r hp (List.mem_range.mp hr) elem helem v' base' _ hc
+    apply hb
+    obtain ⟨hvm, hnf, hk⟩ := hs'
+    refine ⟨v', hvm, hnf, ?_⟩
+    rcases hk with ⟨hnr, rfl⟩ | ⟨hir, recno, hrn, rfl⟩
+    · exact Or.inl ⟨hnr, hin'.1, hin'.2⟩
+    · exact Or.inr ⟨hir, recno, hrn, hin'.1, hin'.2⟩
+
 /-! ### fill-mode bookkeeping -/
 
 /-- after `ncmpi_set_fill(mode)` every variable defined so far is in that mode -/
@@ -506,6 +829,7 @@ theorem setFill_then_defs (n : Nat) :
 def obligations : List String := [
   "share_consecutive", "share_last", "share_within", "shares_partition",
   "segOf_within", "plan_targets_new_only", "plan_avoids", "nofill_no_segment", "plan_covers", "plan_monotone",
+  "fillPlanD_fst", "fillPlanD_snd", "fill_effect",
   "fillRec_covers", "fillRecNumrecs_ge", "fill_bytes_default", "fillBuf_length", "planBuf_length",
   "setFill_all", "defVar_inherits", "varFill_only", "setFill_then_defs"
 ]
